@@ -3,6 +3,7 @@ Model Raw/RawLef.v (+ Raw/RawLefDec.v decimal contracts), spec Raw/RawLefSpec.v,
 correspondence against layout21raw::lef::LefImporter::import (harness bin c16)."""
 import json, os
 from vlib import *
+from props.kernelcommon import kernel_tie_leg
 
 TWO96 = 1 << 96
 LAYER_POOL = ["met1", "met2", "met3", "via1", "poly", "li1", "M1", "nwell", "boundary", "Met1"]
@@ -420,6 +421,7 @@ def nontrivial(c):
 
 def run(chk, replay=None):
     chk.proof_leg(["Raw/RawLefCheck.vo"], "Properties/C16.v", ["Raw/RawLef_proofs.v"], "Properties.C16")
+    kernel_tie_leg(chk, "raw_lef")       # generated-from-source kernels = the model functions (Properties/KernelsRaw2.v)
     chk.assumptions += [
         "rust_decimal 1.43 operations (x10000 with 96-bit overflow handling, trunc, fract().is_zero(), mantissa, is_zero, ==ZERO) are modelled by contract in Raw/RawLefDec.v; validated by the 'dec' cases and by every import, not proved about the crate",
         "isize/usize are 64 bit",
